@@ -223,6 +223,42 @@ def decoder_hints(prog, res):
     res.need(R, 6)
 
 
+def staging_buffer(prog, res):
+    """T11: the streaming decoder's input staging buffer holds every unit the decoder can ask for after the header:
+    a block (<= blockSizeMax), a block header, the checksum"""
+    R = "T11.staging-buffer-holds-every-unit"
+    c = prog.fn("ZSTD_decompressContinue")
+    consts = sorted({const_val(x["rhs"]) for b, i, x in c.events(lambda y: y.get("k") == "asg") if strip_casts(x["lhs"]).get("f") == "expected" and const_val(x["rhs"]) is not None})
+    res.check(len(consts) >= 2 and max(consts) >= 4, R, "constant-unit-sizes", c.loc, "the decoder asks for constant-size units of %s bytes (plus blocks)" % consts, "constant `expected` sizes vanished: %s" % consts)
+    f = prog.fn("ZSTD_decompressStream")
+    asg = [x for b, i, x in f.events(lambda y: y.get("k") == "asg") if strip_casts(x["lhs"]).get("f") == "inBuffSize" and const_val(x["rhs"]) != 0]
+    ok = len(asg) == 1
+    why = "inBuffSize assignment changed"
+    if ok:
+        d = strip_casts(f.resolve_x(asg[0]["rhs"]))
+        if d.get("k") == "ref" and d.get("rk") in ("l", "sl"):
+            sd = f.single_def(d["n"])
+            d = strip_casts(f.resolve_x(sd)) if sd is not None else d
+        floor = None
+        blk = False
+        if d.get("k") == "cond" and "MAX" in d.get("m", []):
+            for k in ("t", "f"):
+                arm = strip_casts(f.resolve_x(d[k]))
+                if arm is None:
+                    continue
+                if const_val(arm) is not None:
+                    floor = const_val(arm)
+                elif any(y.get("f") == "blockSizeMax" for y in f.walk_resolved(arm)):
+                    blk = True
+        ok = blk and floor is not None and consts and floor >= max(consts)
+        why = "the staging buffer is sized %s: a frame whose blockSizeMax is below %d (tiny declared content) cannot stage a block header or checksum delivered in pieces" % (
+            "MAX(blockSizeMax, %s)" % floor if floor is not None else "from blockSizeMax alone", max(consts) if consts else 4)
+    res.check(ok, R, "inBuffSize>=max(blockSizeMax,largest-constant-unit)", f.loc, "inBuffSize = MAX(blockSizeMax, k) with k >= every constant unit size", why)
+    g = [x for x in guards.guard_sites(f) if "corruption_detected" in x.codes and "f:inBuffSize" in (x.L | x.R)]
+    res.check(bool(g), R, "load-stage-bound", f.loc, "the load stage refuses a unit larger than the staging buffer (bound shared with C02/C03)", "load-stage bound vanished")
+    res.need(R, 3)
+
+
 def sizes(prog, res):
     R = "T7.recommended-sizes"
     for name, need in (("ZSTD_CStreamInSize", {"m:ZSTD_BLOCKSIZE_MAX"}), ("ZSTD_CStreamOutSize", {"c:ZSTD_compressBound", "m:ZSTD_BLOCKSIZE_MAX", "g:ZSTD_blockHeaderSize", "k:4"}),
@@ -247,6 +283,7 @@ def run(tier):
     exit_classes(prog, res)
     return_provenance(prog, res)
     decoder_hints(prog, res)
+    staging_buffer(prog, res)
     sizes(prog, res)
     return res.finish(
         explanation="The two streaming state machines cannot take a loop iteration that neither stops, changes stage nor "
